@@ -45,7 +45,7 @@ pub struct CheckSpec {
     pub shrink_plan: bool,
     /// Optional: reduce a failing case to the single fault point that failed (crash point,
     /// failing call, corrupted offset) before it is written to the replay file.
-    pub narrow: Option<Box<dyn Fn(&Case, &Finding) -> Option<Case> + Sync + Send>>,
+    pub narrow: Option<Box<dyn Fn(&Case, &Finding, &CaseResult) -> Option<Case> + Sync + Send>>,
     pub exhaustive: bool,
     pub extra: Value,
 }
@@ -226,7 +226,7 @@ pub fn run_check(spec: &CheckSpec, tier: Tier) -> i32 {
         println!("violation candidate in run {} (run_seed {:016x}): [{}] {}", h.index, h.case.run_seed, h.finding.signature, h.finding.detail);
         let mut h = h;
         if let Some(narrow) = &spec.narrow {
-            if let Some(nc) = narrow(&h.case, &h.finding) {
+            if let Some(nc) = narrow(&h.case, &h.finding, &h.res) {
                 let r = (spec.exec)(&nc);
                 if let Some(g) = same_violation(&r, spec.prop, &h.finding) {
                     println!("  narrowed to the single failing fault point: {:?}", nc.params);
